@@ -1,110 +1,129 @@
 (** C10 — thread-specific data is private to (thread, key) and follows the thread.
     Statements only; every proof is [exact] of a lemma of Tls/Tls*Proofs.v.
 
-    Part 1: the per-thread radix tree (Tls/TlsTreeModel.v), every key, every tree
-            reachable by stores.
+    The models cover the source with and without the two repairs; the check
+    probes on every run which variant the library is and says so in its evidence:
+    - layout / generation tags: [cfg_plain] + [kg0] (no tags) or [cfg_tagged] + the
+      allocator's generation column (repair of the stale-value finding);
+    - the key free list: lock-free CAS loops ([step], Tls/TlsKeysModel.v) or
+      serialised by a spin lock ([lstep], Tls/TlsKeysLockModel.v; repair of the ABA
+      finding).
+
+    Part 1: the per-thread radix tree, every key, every tree reachable by stores,
+            every layout, every generation column.
     Part 2: the key allocator, sequentially, every history of create/delete.
-    Part 3: the key allocator at the grain of the MYTH_VERIF_POINTs, any number
-            of threads, every schedule: the full statement is FALSE (ABA on the
-            free list) - refuted with an explicit 3-thread schedule, and proved
-            under the guard that excludes exactly the ABA window.
-    Part 4: values stored under an index survive deletion and re-creation of
-            the key (stale value) - refuted, and proved under its guard. *)
+    Part 3: the key allocator at the grain of the MYTH_VERIF hooks, any number of
+            threads, every schedule.  Lock-free code: the full statement is FALSE
+            (ABA) - refuted with an explicit 3-thread schedule and proved under the
+            guard that excludes exactly the ABA window.  Locked code: the FULL
+            statement is proved.
+    Part 4: a fresh key reads NULL.  Code without tags: FALSE (stale value) -
+            refuted, and proved under its guard.  Code with tags: the FULL
+            statement is proved. *)
 From Coq Require Import ZArith List Permutation.
 From MT Require Import Lib.Interleave.
 From MT Require Import Tls.TlsTreeModel Tls.TlsTreeProofs Tls.TlsKeysModel Tls.TlsKeysProofs.
+From MT Require Import Tls.TlsKeysLockModel Tls.TlsKeysLockProofs.
 From MT Require Import Tls.TlsSysModel Tls.TlsSysProofs.
 Import ListNotations.
 Local Open Scope Z_scope.
 
-(** * Part 1 - the tree.  [reach t]: [t] results from any sequence of
-    [myth_tls_tree_set] calls (any keys, also out of range, any values) on the
-    tree of a fresh thread.  [in_range k] is [0 <= k < 1024]. *)
+(** * Part 1 - the tree.  [reach c t]: [t] results from any sequence of
+    [myth_tls_tree_set] calls (any keys, also out of range, any values, each with
+    the generation column of its moment) on the tree of a fresh thread.
+    [in_range k] is [0 <= k < 1024]. *)
 
 (** a stored value is what the thread reads back under that key *)
-Theorem C10_get_after_set : forall t k v, reach t -> in_range k ->
-  exists t', set t k v = Some (t', 0) /\ get t' k = Some v.
+Theorem C10_get_after_set : forall c kg t k v, reach c t -> in_range k ->
+  exists t', set c kg t k v = Some (t', 0) /\ get kg t' k = Some v.
 Proof. exact get_after_set. Qed.
 Print Assumptions C10_get_after_set.
 
-(** a store changes the value of no other key (in or out of range) *)
-Theorem C10_set_frame : forall t k v t' rc k', reach t -> set t k v = Some (t', rc) -> k' <> k ->
-  get t' k' = get t k'.
+(** a store changes the value of no other key (in or out of range), whatever
+    generation column the reader uses *)
+Theorem C10_set_frame : forall c kg t k v t' rc k' kg', reach c t -> set c kg t k v = Some (t', rc) ->
+  k' <> k -> get kg' t' k' = get kg' t k'.
 Proof. exact set_frame. Qed.
 Print Assumptions C10_set_frame.
 
 (** a thread that never stored reads NULL, under every key *)
-Theorem C10_get_empty : forall k, get empty k = Some 0.
+Theorem C10_get_empty : forall kg k, get kg empty k = Some 0.
 Proof. exact get_empty. Qed.
 Print Assumptions C10_get_empty.
 
 (** key indices outside the valid range are rejected: the store returns EINVAL
     and leaves the tree untouched (no node is allocated), the load returns NULL *)
-Theorem C10_out_of_range_rejected : forall t k v, ~ in_range k ->
-  set t k v = Some (t, EINVAL) /\ get t k = Some 0.
+Theorem C10_out_of_range_rejected : forall c kg t k v, ~ in_range k ->
+  set c kg t k v = Some (t, EINVAL) /\ get kg t k = Some 0.
 Proof. exact out_of_range_rejected. Qed.
 Print Assumptions C10_out_of_range_rejected.
 
 (** no [assert] of the C code fails; the return value is 0 exactly for valid keys *)
-Theorem C10_set_total : forall t k v, reach t ->
-  exists t' rc, set t k v = Some (t', rc) /\ (rc = 0 <-> in_range k).
+Theorem C10_set_total : forall c kg t k v, reach c t ->
+  exists t' rc, set c kg t k v = Some (t', rc) /\ (rc = 0 <-> in_range k).
 Proof. exact set_total. Qed.
 Print Assumptions C10_set_total.
 
-Theorem C10_get_total : forall t k, reach t -> exists v, get t k = Some v.
+Theorem C10_get_total : forall c kg t k, reach c t -> exists v, get kg t k = Some v.
 Proof. exact get_total. Qed.
 Print Assumptions C10_get_total.
 
-(** the embedded bump pool never overruns its 256-byte buffer: the bump pointer
-    stays inside it, every node carved from it lies below the bump pointer, every
-    other node comes from a distinct [myth_malloc] call, and no two nodes of the
-    tree have the same memory origin *)
-Theorem C10_pool_never_overruns : forall t, reach t ->
-  0 <= pp t <= POOL_SZ /\
-  (forall off sz, In (Pool off, sz) (nodes (root t)) -> 0 <= off /\ off + sz <= pp t /\ 0 < sz) /\
-  (forall id sz, In (Heap id, sz) (nodes (root t)) -> 0 <= id < nheap t) /\
-  NoDup (map fst (nodes (root t))).
+(** a slot written under another generation than the index' current one reads NULL *)
+Theorem C10_stale_hidden : forall kg t k v g, look_tree t k = Found v g -> g <> kg k -> get kg t k = Some 0.
+Proof. exact stale_hidden. Qed.
+Print Assumptions C10_stale_hidden.
+
+(** the embedded bump pool never overruns its buffer (256 bytes without tags, 384
+    with): the bump pointer stays inside it, every node carved from it lies below
+    the bump pointer, every other node comes from a distinct [myth_malloc] call,
+    and no two nodes of the tree have the same memory origin *)
+Theorem C10_pool_never_overruns : forall c, 0 < c_leaf c -> 0 <= c_pool c -> forall t, reach c t ->
+  0 <= pp t <= c_pool c /\
+  (forall off sz, In (Pool off, sz) (nodes c (root t)) -> 0 <= off /\ off + sz <= pp t /\ 0 < sz) /\
+  (forall id sz, In (Heap id, sz) (nodes c (root t)) -> 0 <= id < nheap t) /\
+  NoDup (map fst (nodes c (root t))).
 Proof. exact pool_never_overruns. Qed.
 Print Assumptions C10_pool_never_overruns.
 
 (** "every subset of keys": every list of stores is executable and lands in
-    [reach]; every reachable tree comes from such a list *)
-Theorem C10_every_history_reachable : forall kvs, exists t, set_all empty kvs = Some t /\ reach t.
-Proof. exact (fun kvs => set_all_reach kvs empty reach_empty). Qed.
+    [reach]; every reachable tree comes from a list of stores *)
+Theorem C10_every_history_reachable : forall c kg kvs, exists t, set_all c kg empty kvs = Some t /\ reach c t.
+Proof. exact (fun c kg kvs => set_all_reach c kg kvs empty (reach_empty c)). Qed.
 Print Assumptions C10_every_history_reachable.
 
-Theorem C10_reachable_by_history : forall t, reach t -> exists kvs, set_all empty kvs = Some t.
-Proof. exact reach_set_all. Qed.
+Theorem C10_reachable_by_history : forall c t, reach c t -> exists l, set_steps c empty l = Some t.
+Proof. exact reach_set_steps. Qed.
 Print Assumptions C10_reachable_by_history.
 
 (** privacy across threads: a store by thread [t] changes neither the key
     allocator nor any other thread's tree (the tree is a field of the thread
     descriptor: it is the thread's on whichever worker the thread runs); a load
     changes nothing *)
-Theorem C10_set_private : forall s t k v s' rc, sys_step s (TSet t k v) = Some (s', rc) ->
+Theorem C10_set_private : forall var s t k v s' rc, sys_step var s (TSet t k v) = Some (s', rc) ->
   sk s' = sk s /\ sh s' = sh s /\ length (trees s') = length (trees s) /\
   forall t', t' <> t -> nth_error (trees s') t' = nth_error (trees s) t'.
 Proof. exact set_private. Qed.
 Print Assumptions C10_set_private.
 
-Theorem C10_get_pure : forall s t k s' v, sys_step s (TGet t k) = Some (s', v) -> s' = s.
+Theorem C10_get_pure : forall var s t k s' v, sys_step var s (TGet t k) = Some (s', v) -> s' = s.
 Proof. exact get_pure. Qed.
 Print Assumptions C10_get_pure.
 
-(** * Part 2 - the key allocator, one call at a time.  [seq_hist kinit [] os]
-    runs the history [os] of creates and deletes from the initialised
-    allocator; it yields the allocator state, the list [h] of keys handed out and
-    not yet deleted, and the results. *)
+(** * Part 2 - the key allocator, one call at a time.  [seq_hist tagged kinit [] os]
+    runs the history [os] of creates and deletes from the initialised allocator; it
+    yields the allocator state, the list [h] of keys handed out and not yet
+    deleted, and the results.  ([tagged]: with or without the generation column;
+    run alone, a call of the locked allocator does the same: [C10_locked_sequential].) *)
 
 (** every history runs to completion (no call runs out of fuel) *)
-Theorem C10_seq_total : forall os,
-  exists s h rs, seq_hist kinit [] os = Some (s, h, rs) /\ length rs = length os.
+Theorem C10_seq_total : forall tagged os,
+  exists s h rs, seq_hist tagged kinit [] os = Some (s, h, rs) /\ length rs = length os.
 Proof. exact seq_history_total. Qed.
 Print Assumptions C10_seq_total.
 
 (** live keys are pairwise distinct, inside the range and marked live; the
     free list is a NULL-terminated chain and free ⊎ live = all 1024 indices *)
-Theorem C10_seq_distinct : forall os s h rs, seq_hist kinit [] os = Some (s, h, rs) ->
+Theorem C10_seq_distinct : forall tagged os s h rs, seq_hist tagged kinit [] os = Some (s, h, rs) ->
   NoDup h /\ (forall k, In k h -> in_range k /\ knext s k = LIVE) /\
   exists fl, chain (knext s) (kfree s) fl /\ Permutation (fl ++ h) (zrange 0 1024).
 Proof. exact seq_history_distinct. Qed.
@@ -112,40 +131,47 @@ Print Assumptions C10_seq_distinct.
 
 (** creation fails exactly when 1024 keys are live (and then changes nothing);
     otherwise it returns a fresh index and records the destructor there only *)
-Theorem C10_seq_create : forall os s h rs d, seq_hist kinit [] os = Some (s, h, rs) ->
-  (length h = 1024%nat /\ seq_op s h (Create d) = Some (s, h, -1)) \/
-  ((length h < 1024)%nat /\ exists k s', seq_op s h (Create d) = Some (s', k :: h, k) /\
+Theorem C10_seq_create : forall tagged os s h rs d, seq_hist tagged kinit [] os = Some (s, h, rs) ->
+  (length h = 1024%nat /\ seq_op tagged s h (Create d) = Some (s, h, -1)) \/
+  ((length h < 1024)%nat /\ exists k s', seq_op tagged s h (Create d) = Some (s', k :: h, k) /\
      in_range k /\ ~ In k h /\ kdtor s' k = d /\ (forall k', k' <> k -> kdtor s' k' = kdtor s k')).
 Proof. exact seq_history_create. Qed.
 Print Assumptions C10_seq_create.
 
 (** deleting a live key removes exactly that key and returns its destructor;
     deleting a dead or out-of-range key is an error and a no-op *)
-Theorem C10_seq_delete : forall os s h rs k, seq_hist kinit [] os = Some (s, h, rs) ->
-  (In k h /\ exists s', seq_op s h (Delete k) = Some (s', remove1 k h, kdtor s k) /\ ~ In k (remove1 k h)) \/
-  (~ In k h /\ seq_op s h (Delete k) = Some (s, h, ERR)).
+Theorem C10_seq_delete : forall tagged os s h rs k, seq_hist tagged kinit [] os = Some (s, h, rs) ->
+  (In k h /\ exists s', seq_op tagged s h (Delete k) = Some (s', remove1 k h, kdtor s k) /\ ~ In k (remove1 k h)) \/
+  (~ In k h /\ seq_op tagged s h (Delete k) = Some (s, h, ERR)).
 Proof. exact seq_history_delete. Qed.
 Print Assumptions C10_seq_delete.
 
-(** * Part 3 - concurrent create/delete.  [step] is the interleaving system of
-    Tls/TlsKeysModel.v (one [Tick] per MYTH_VERIF_POINT); [held s] is the ghost
-    list of keys handed out and not yet accepted by a delete.
+Theorem C10_locked_sequential : forall tagged s h o,
+  lseq_op tagged s h o =
+  match seq_op tagged s h o with Some (s', h', r) => Some (false, s', h', r) | None => None end.
+Proof. exact lseq_op_eq. Qed.
+Print Assumptions C10_locked_sequential.
 
-    FULL STATEMENT (false):
-      forall s, reachable is_init step s -> NoDup (held s). *)
+(** * Part 3a - concurrent create/delete, LOCK-FREE code.  [step] is the
+    interleaving system of Tls/TlsKeysModel.v (one [Tick] per MYTH_VERIF_POINT);
+    [held s] is the ghost list of keys handed out and not yet accepted by a delete.
+
+    FULL STATEMENT (false for this code):
+      forall s, reachable is_init (step tagged) s -> NoDup (held s). *)
 
 (** the explicit schedule: T0's create is preempted between "key.alloc.readnext"
     and "key.alloc.cas"; T1 creates 0, creates 1, deletes 0; T0's CAS succeeds;
     T2's create returns the live key 1 (and leaves the head at the live mark) *)
-Theorem C10_aba_refuted :
-  let s := run step aba_schedule (init 3) in
-  reachable is_init step s /\
+Theorem C10_aba_refuted : forall tagged,
+  let s := run (step tagged) aba_schedule (init 3) in
+  reachable is_init (step tagged) s /\
   held s = [1; 0; 1] /\ result s 0 = Some 0 /\ result s 2 = Some 1 /\
   kfree (ks s) = LIVE /\ ~ NoDup (held s).
 Proof. exact aba_witness. Qed.
 Print Assumptions C10_aba_refuted.
 
-Theorem C10_distinct_concurrent_refuted : ~ (forall s, reachable is_init step s -> NoDup (held s)).
+Theorem C10_distinct_concurrent_refuted : forall tagged,
+  ~ (forall s, reachable is_init (step tagged) s -> NoDup (held s)).
 Proof. exact distinct_concurrent_refuted. Qed.
 Print Assumptions C10_distinct_concurrent_refuted.
 
@@ -157,38 +183,60 @@ Print Assumptions C10_distinct_concurrent_refuted.
     them; every index is free, handed out, or detached by a delete in progress.
     Missing w.r.t. the full statement: the schedules containing the excluded
     step (see [C10_guard_exact]). *)
-Theorem C10_distinct_concurrent_partial : forall s, reachable is_init gstep s ->
+Theorem C10_distinct_concurrent_partial : forall tagged s, reachable is_init (gstep tagged) s ->
   NoDup (held s) /\
   (forall k, In k (held s) -> in_range k /\ knext (ks s) k = LIVE) /\
   exists fl, chain (knext (ks s)) (kfree (ks s)) fl /\ NoDup fl /\
              (forall k, In k fl -> in_range k /\ ~ In k (held s)) /\
              (forall k, in_range k -> In k fl \/ In k (held s) \/
                         exists t p, nth_error (threads s) t = Some p /\ detached k p).
-Proof. exact (fun s H => cinv_property s (cinv_reachable s H)). Qed.
+Proof. exact (fun tagged s H => cinv_property s (cinv_reachable tagged s H)). Qed.
 Print Assumptions C10_distinct_concurrent_partial.
 
 (** the guarded system only removes steps ... *)
-Theorem C10_guard_subsystem : forall s a s', gstep s a = Some s' -> step s a = Some s'.
+Theorem C10_guard_subsystem : forall tagged s a s', gstep tagged s a = Some s' -> step tagged s a = Some s'.
 Proof. exact gstep_sub. Qed.
 Print Assumptions C10_guard_subsystem.
 
 (** ... namely exactly this one: the successful "key.dealloc.cas" that pushes key
     [k] while some create waits at "key.alloc.cas" with [k] as its operand *)
-Theorem C10_guard_exact : forall s t,
-  (gstep s (t, Tick) = None /\ step s (t, Tick) <> None) <->
+Theorem C10_guard_exact : forall tagged s t,
+  (gstep tagged s (t, Tick) = None /\ step tagged s (t, Tick) <> None) <->
   exists k h f, nth_error (threads s) t = Some (DCas k h f) /\ kfree (ks s) = h /\
                 exists u n d, nth_error (threads s) u = Some (ACas k n d).
 Proof. exact guard_exact. Qed.
 Print Assumptions C10_guard_exact.
 
-(** * Part 4 - deleting a key does not clear the slots written under it.
+(** * Part 3b - concurrent create/delete, LOCKED code: the FULL statement.
+    [lstep] is the interleaving system of Tls/TlsKeysLockModel.v (one tick per
+    hook: "spin.trylock", "spin.wait", the six key.* points inside the locked
+    region, "spin.unlock").  Any number of threads, any programs (NO usage
+    contract: also two deletes of the same key at once), any schedule - also
+    schedules that suspend a thread inside the locked region for as long as they
+    like.  In every reachable state the keys handed out are pairwise distinct,
+    valid and marked live; whenever no thread is inside the locked region the
+    free list is a NULL-terminated chain and free ⊎ handed-out = all 1024
+    indices; at most one thread is inside the locked region, and none when the
+    lock is free. *)
+Theorem C10_distinct_concurrent : forall tagged s, reachable lis_init (lstep tagged) s ->
+  (NoDup (lheld s) /\ forall x, In x (lheld s) -> in_range x /\ knext (lks s) x = LIVE) /\
+  ((forall t p, nth_error (lthreads s) t = Some p -> in_cs p = false) ->
+   exists fl, chain (knext (lks s)) (kfree (lks s)) fl /\
+              Permutation (fl ++ lheld s) (zrange 0 1024)) /\
+  (forall t1 t2 p1 p2, nth_error (lthreads s) t1 = Some p1 -> nth_error (lthreads s) t2 = Some p2 ->
+     in_cs p1 = true -> in_cs p2 = true -> t1 = t2) /\
+  (llock s = false -> forall t p, nth_error (lthreads s) t = Some p -> in_cs p = false).
+Proof. exact (fun tagged s H => linv_property s (linv_reachable tagged s H)). Qed.
+Print Assumptions C10_distinct_concurrent.
 
-    FULL STATEMENT (false): after any history, a key returned by a create reads
-    NULL in every thread (no thread has stored under this incarnation yet). *)
+(** * Part 4a - a fresh key reads NULL, code WITHOUT generation tags.
+
+    FULL STATEMENT (false for this code): after any history, a key returned by a
+    create reads NULL in every thread. *)
 Theorem C10_stale_refuted :
-  option_map snd (sys_run (sys_init 1) stale_history) = Some [0; 0; 0; 0; 777] /\
-  guarded_run (sys_init 1) stale_history = false /\
-  guarded_run (sys_init 1) [KCreate 0; TSet 0 0 777] = true.
+  option_map snd (sys_run variant_plain (sys_init 1) stale_history) = Some [0; 0; 0; 0; 777] /\
+  guarded_run variant_plain (sys_init 1) stale_history = false /\
+  guarded_run variant_plain (sys_init 1) [KCreate 0; TSet 0 0 777] = true.
 Proof. exact stale_witness. Qed.
 Print Assumptions C10_stale_refuted.
 
@@ -197,35 +245,61 @@ Print Assumptions C10_stale_refuted.
     any number of threads and any history, the key returned by a create reads
     NULL in every thread.  Missing: histories that delete a key while some
     thread still holds a value under it (then the stale value is read). *)
-Theorem C10_fresh_key_null_partial : forall n os s rs d s' k,
-  guarded_run (sys_init n) os = true ->
-  sys_run (sys_init n) os = Some (s, rs) ->
-  sys_step s (KCreate d) = Some (s', k) -> k <> -1 ->
-  forall t tr, nth_error (trees s') t = Some tr -> get tr k = Some 0.
-Proof. exact fresh_key_null. Qed.
+Theorem C10_fresh_key_null_partial : forall var n os s rs d s' k, v_tagged var = false ->
+  guarded_run var (sys_init n) os = true ->
+  sys_run var (sys_init n) os = Some (s, rs) ->
+  sys_step var s (KCreate d) = Some (s', k) -> k <> -1 ->
+  forall t tr, nth_error (trees s') t = Some tr -> get (kgen (sk s')) tr k = Some 0.
+Proof. exact fresh_key_null_guarded. Qed.
 Print Assumptions C10_fresh_key_null_partial.
+
+(** * Part 4b - code WITH generation tags: the FULL statement.  Any number of
+    threads, ANY history (no guard, no usage contract: stores under dead keys and
+    deletes of keys that threads still hold values under included) of fewer than
+    2^32 - 1 operations (the generation is an [unsigned int]): the key returned
+    by a create reads NULL in every thread. *)
+Theorem C10_fresh_key_null : forall var, v_tagged var = true -> forall n os s rs d s' k,
+  Z.of_nat (length os) + 1 < GEN_MOD ->
+  sys_run var (sys_init n) os = Some (s, rs) ->
+  sys_step var s (KCreate d) = Some (s', k) -> k <> -1 ->
+  forall t tr, nth_error (trees s') t = Some tr -> get (kgen (sk s')) tr k = Some 0.
+Proof. exact fresh_key_null. Qed.
+Print Assumptions C10_fresh_key_null.
+
+Theorem C10_stale_witness_repaired :
+  option_map snd (sys_run variant_tagged (sys_init 1) stale_history) = Some [0; 0; 0; 0; 0].
+Proof. exact stale_witness_tagged. Qed.
+Print Assumptions C10_stale_witness_repaired.
 
 (** * non-vacuity *)
 
 (** keys in all four top-level subtrees; the first path uses up the pool, every
     later node is malloc-ed *)
 Example C10_tree_example :
-  match set_all empty [(0, 11); (16, 12); (256, 13); (1023, 14); (1024, 99); (-1, 98)] with
-  | Some t => map (get t) [0; 16; 256; 1023; 1; 255; 1024; -1]
+  match set_all cfg_plain kg0 empty [(0, 11); (16, 12); (256, 13); (1023, 14); (1024, 99); (-1, 98)] with
+  | Some t => map (get kg0 t) [0; 16; 256; 1023; 1; 255; 1024; -1]
                 = [Some 11; Some 12; Some 13; Some 14; Some 0; Some 0; Some 0; Some 0] /\
               pp t = 256 /\ nheap t = 7 /\ shapeb DEPTH (root t) = true
   | None => False
   end.
 Proof. vm_compute. repeat split; reflexivity. Qed.
 
+Example C10_tree_example_tagged :
+  match set_all cfg_tagged (fun _ => 3) empty [(0, 11); (16, 12); (256, 13)] with
+  | Some t => map (get (fun k => if k =? 16 then 4 else 3) t) [0; 16; 256] = [Some 11; Some 0; Some 13] /\
+              pp t = 384 /\ nheap t = 4
+  | None => False
+  end.
+Proof. vm_compute. repeat split; reflexivity. Qed.
+
 Example C10_seq_example :
   option_map (fun x => (snd (fst x), snd x))
-    (seq_hist kinit [] [Create 1; Create 2; Delete 0; Delete 0; Delete 5000; Create 3; Create 4])
+    (seq_hist true kinit [] [Create 1; Create 2; Delete 0; Delete 0; Delete 5000; Create 3; Create 4])
   = Some ([2; 0; 1], [0; 1; 1; -1; -1; 0; 2]).
 Proof. vm_compute. reflexivity. Qed.
 
-(** a guarded concurrent run: two creates and a delete interleaved, one CAS
-    fails and retries; reachable in [gstep] *)
+(** a guarded concurrent run of the lock-free code: two creates and a delete
+    interleaved, one CAS fails and retries; reachable in [gstep] *)
 Definition guarded_schedule : list (nat * ev) :=
   [(0%nat, Call (Create 7)); (1%nat, Call (Create 8)); (0%nat, Tick); (1%nat, Tick);
    (0%nat, Tick); (1%nat, Tick); (1%nat, Tick); (0%nat, Tick); (0%nat, Tick); (0%nat, Tick);
@@ -234,18 +308,25 @@ Definition guarded_schedule : list (nat * ev) :=
    (0%nat, Tick); (0%nat, Tick); (0%nat, Tick); (0%nat, Tick)].
 
 Example C10_guarded_example :
-  let s := run gstep guarded_schedule (init 2) in
-  reachable is_init gstep s /\ held s = [0; 1] /\ result s 0 = Some 0 /\ result s 1 = Some 8.
+  let s := run (gstep false) guarded_schedule (init 2) in
+  reachable is_init (gstep false) s /\ held s = [0; 1] /\ result s 0 = Some 0 /\ result s 1 = Some 8.
 Proof.
   cbv zeta. split; [apply run_reachable, reach_init; exists 2%nat; reflexivity|].
   vm_compute. repeat split; reflexivity.
 Qed.
 
+(** the schedule of the ABA witness on the locked code: T0 is suspended inside
+    the locked region, T1 and T2 spin, nothing goes wrong *)
+Example C10_locked_example : forall tagged,
+  let s := run (lstep tagged) aba_schedule_locked (linit 3) in
+  lheld s = [1; 2; 0] /\ lresult s 2 = Some 1 /\ llock s = false /\ kfree (lks s) = 3.
+Proof. exact aba_schedule_locked_ok. Qed.
+
 (** a guarded API history: a key is deleted after its value was reset to NULL *)
 Example C10_guarded_history_example :
-  guarded_run (sys_init 2)
+  guarded_run variant_plain (sys_init 2)
     [KCreate 0; KCreate 0; TSet 0 0 5; TSet 1 1 6; TSet 0 0 0; KDelete 0; KCreate 3; TGet 0 0; TGet 1 1] = true /\
-  option_map snd (sys_run (sys_init 2)
+  option_map snd (sys_run variant_plain (sys_init 2)
     [KCreate 0; KCreate 0; TSet 0 0 5; TSet 1 1 6; TSet 0 0 0; KDelete 0; KCreate 3; TGet 0 0; TGet 1 1])
   = Some [0; 1; 0; 0; 0; 0; 0; 0; 6].
 Proof. vm_compute. split; reflexivity. Qed.
